@@ -101,6 +101,10 @@ func c09ReaderTable(thorough bool) []string {
 			add(c09Tokens[i] + c09Tokens[j])
 		}
 	}
+	// decimal strings at and next to the machine integer boundaries in every numeric position
+	for _, t := range c09BoundaryReaderTable() {
+		add(t)
+	}
 	// depth and length probes
 	for _, n := range []int{10, 1000, 100000} {
 		add(strings.Repeat("(", n))
